@@ -114,6 +114,17 @@ def witness(prop, clause, tier):
             j = json.loads(out)
         except ValueError:
             return dict(status='witness-error', detail=(p.stdout + p.stderr)[-1500:])
+        if j.get('status') == 'found':
+            # the search is seeded and deterministic: a genuine finding reproduces; anything else is discarded
+            p2 = subprocess.run([exe, prop, budget], capture_output=True, text=True, timeout=900)
+            out2 = p2.stdout.strip().split('\n')[-1] if p2.stdout.strip() else ''
+            try:
+                j2 = json.loads(out2)
+            except ValueError:
+                j2 = {}
+            if j2.get('status') != 'found' or j2.get('input') != j.get('input'):
+                return dict(status='not-reproducible', first=j, second=j2)
+            j['reproduced'] = True
         return j
     except Exception as e:  # noqa
         return dict(status='witness-error', detail=str(e))
